@@ -145,6 +145,12 @@ def reference_resolve(bindings, package, ref):
     return ("error",)
 
 
+def _plain(v):
+    """CEL value -> plain Python data (through the library's JSON encoder), so that comparisons are native"""
+    import json
+    return json.loads(json.dumps(v, cls=celpy.adapter.CELJSONEncoder))
+
+
 def bounded(rep, tier, seed):
     rng = random.Random(seed)
     fails = []
@@ -180,7 +186,7 @@ def bounded(rep, tier, seed):
                             env = celpy.Environment(package=pkg or None, annotations=decls, runner_class=runner)
                             prog = env.program(env.compile(ref))
                             got = prog.evaluate({k: celpy.json_to_cel(v) for k, v in bindings.items()})
-                            got = ("value", celpy.adapter.CELJSONEncoder.to_python(got)) if not isinstance(got, ev.NameContainer) else ("container",)
+                            got = ("value", _plain(got)) if not isinstance(got, ev.NameContainer) else ("container",)
                         except ev.CELEvalError:
                             got = ("error",)
                         except Exception as ex:
@@ -200,7 +206,7 @@ def bounded(rep, tier, seed):
             n += 1
             try:
                 env = celpy.Environment(annotations={k: ct.IntType for k in b}, runner_class=runner)
-                got = celpy.adapter.CELJSONEncoder.to_python(env.program(env.compile(text)).evaluate({k: ct.IntType(v) for k, v in b.items()}))
+                got = _plain(env.program(env.compile(text)).evaluate({k: ct.IntType(v) for k, v in b.items()}))
                 ok = got == want
             except Exception as ex:
                 got, ok = repr(ex)[:120], False
